@@ -1,4 +1,31 @@
-import Rbp.Model.Script
+import Rbp.Proofs.ScriptMachine
+/-!
+# C14 — no script or witness content can abort a run or disturb other rows
+Totality is stated on the panic-site models: every Rust site that can panic is an explicit `.panic` outcome there.
+-/
 namespace Rbp.Props.C14
-theorem placeholder_unfolds (v : UInt8) (s : List UInt8) : S.eval v s = (if v = 0x00 then S.evalBtc false s else if v = 0x6f then S.evalBtc true s else S.evalCustom v s) := rfl
+open S SM
+
+/-- fork coins: for every version byte and every byte string (any slice Rust can hold: length < 2^63), the evaluator of
+    `custom.rs` — modelled with explicit panic outcomes at `bytes[ip]`, `&bytes[ip+1..]`, `&bytes[ip..ip+len]`, `elements[i]`
+    and the usize addition `ip + data_len` — never reaches one, and returns the verdict of the structural model -/
+theorem evalCustom_total (ver : UInt8) (s : Bytes) (hlen : s.length < 2^63) :
+    SM.eval ver s = .ok (evalCustom ver s) :=
+  eval_eq ver s hlen
+
+/-- in particular the tokeniser loop: never out of fuel, never out of bounds, and equal to the structural tokeniser;
+    `eof` (a push running past the end) is the only failure -/
+theorem tokeniser_total (s : Bytes) (hlen : s.length < 2^63) :
+    SM.loop s (s.length + 1) 0 [] = (match tokens s with | some t => .ok t | none => .eof) := by
+  rw [loop_eq s hlen (s.length + 1) 0 [] (by omega) (by omega)]
+  simp only [List.drop_zero, expect]
+  cases tokens s <;> simp
+
+/-- `match_stack_pattern` indexes both vectors only below their common length -/
+theorem matchPattern_total (els pat : List El) : ∃ b, matchPattern els pat = .ok b :=
+  ⟨_, matchPattern_eq els pat⟩
+
+/-- non-vacuity: a PUSHDATA4 announcing 2^32-1 bytes on a 5-byte script ends in `eof`, not in a panic -/
+example : SM.loop [0x4e, 0xff, 0xff, 0xff, 0xff] 6 0 [] = .eof := by decide
+
 end Rbp.Props.C14
